@@ -1,0 +1,74 @@
+//go:build verif
+
+package highlight
+
+// This file is only built with the "verif" tag. It exposes unexported pieces
+// of the highlighter to an out-of-tree verification harness; it adds no
+// behaviour.
+
+import (
+	"time"
+
+	"src.elv.sh/pkg/parse"
+	"src.elv.sh/pkg/ui"
+)
+
+// VerifRegion mirrors the unexported region type.
+type VerifRegion struct {
+	Begin, End int
+	Kind       int // VerifLexicalRegion | VerifSemanticRegion
+	Type       string
+}
+
+// Region kinds and the semantic region types.
+const (
+	VerifLexicalRegion  = int(lexicalRegion)
+	VerifSemanticRegion = int(semanticRegion)
+	VerifCommandRegion  = commandRegion
+	VerifKeywordRegion  = keywordRegion
+	VerifErrorRegion    = errorRegion
+)
+
+func verifCopyRegions(rs []region) []VerifRegion {
+	out := make([]VerifRegion, len(rs))
+	for i, r := range rs {
+		out[i] = VerifRegion{r.Begin, r.End, int(r.Kind), r.Type}
+	}
+	return out
+}
+
+// VerifFixRegions calls fixRegions on a private copy of rs. It returns that
+// copy as fixRegions left it (sort.Slice sorts it in place) and the result.
+func VerifFixRegions(rs []VerifRegion) (sorted, fixed []VerifRegion) {
+	in := make([]region, len(rs))
+	for i, r := range rs {
+		in[i] = region{r.Begin, r.End, regionKind(r.Kind), r.Type}
+	}
+	out := fixRegions(in)
+	return verifCopyRegions(in), verifCopyRegions(out)
+}
+
+// VerifGetRegions calls getRegions.
+func VerifGetRegions(n parse.Node) []VerifRegion { return verifCopyRegions(getRegions(n)) }
+
+// VerifHighlight calls highlight.
+func VerifHighlight(code string, cfg Config, lateCb func(ui.Text)) (ui.Text, []ui.Text) {
+	return highlight(code, cfg, lateCb)
+}
+
+// VerifSetMaxBlockForLate sets maxBlockForLate and returns the old value.
+func VerifSetMaxBlockForLate(d time.Duration) time.Duration {
+	old := maxBlockForLate
+	maxBlockForLate = d
+	return old
+}
+
+// VerifStylingFor returns a copy of the theme table and the two command
+// stylings.
+func VerifStylingFor() (table map[string]ui.Styling, goodCommand, badCommand ui.Styling) {
+	table = make(map[string]ui.Styling, len(stylingFor))
+	for k, v := range stylingFor {
+		table[k] = v
+	}
+	return table, stylingForGoodCommand, stylingForBadCommand
+}
